@@ -55,6 +55,24 @@ check('C20', 'model_checking',
       'TLA+ spec of concurrent calls, TLC-enumerated schedules replayed on real threads + TLC trace validation',
       'DESIGN.md 2.9, 5/C20')
 
+check('C03', 'model_checking',
+      'ExprPrec.tla enumerates every operator tree with 1..2 operator nodes over all operators (minimal and full '
+      'parentheses) and 3 nodes over tier representatives (thorough: all operators), with the parentheses the '
+      'reference grouping needs, the expected tree and its 3-valued value on {NULL,0,1,2}^3; the reference is '
+      'cross-checked against sqlite3 on every case before it judges; every printed text is parsed in 7 expression '
+      'contexts by the three dialects and the tree read by reflection must equal the spec tree, flags included.',
+      'Bounded tree size; leaves are columns; operators/contexts a dialect rejects outright are not judged for it.',
+      'TLA+ reference precedence spec enumerated by TLC, cases replayed into the real parsers; sqlite3 as oracle check',
+      'DESIGN.md 2.5, 5/C03')
+check('C13', 'model_checking',
+      'Traversal.tla states the walker contract (Schema of child slots in textual order, Expected visit sequence, '
+      'Replace, Judge); TraversalGen enumerates every node kind in every slot of every kind (depth 2, thorough 3) and '
+      'the harness builds and walks the real ASTs; parser-produced trees are walked too; every recorded visit '
+      'sequence and every tree after a replacing visitor (each visit position) is judged by TLC.',
+      'Node kinds outside Schema are leaves; LIMIT/OFFSET constants and column definitions are not required visits.',
+      'TLA+ contract + TLC-generated cases replayed into query_traversal, recorded runs judged by TLC',
+      'DESIGN.md 2.8, 5/C13')
+
 ALL = ['C%02d' % i for i in range(1, 21)]
 
 
